@@ -107,29 +107,61 @@ def whyRejectA (c : Cfg) (st : StA) : EvA → String
     s!"tick: grantable={g} waitable={w}"
   | .runBegin => "runBegin"
 
+/-- the guard of `tick` that failed, if the step can be forced (`eager` / `urgent`) -/
+def tickWhyA (c : Cfg) (st : StA) : String :=
+  let g := (List.range c.n).filter fun j => 0 < j && st.ph j == .queued && !st.creq j && slotFree c st (c.parent j)
+  if !g.isEmpty then "eager" else "urgent"
+
+/-- Replays the events; a difference that concerns one component only (a window limit not enforced, the clock
+    advancing while something urgent is pending, a start set that differs) is recorded, the observed behaviour is
+    adopted and the replay goes on; a difference the replay cannot get past ends it. The answer lists the
+    differences: `ok n` or `diff n | i comp detail | …` (at most 6). -/
 def replayA (c : Cfg) (evs : List ObsA) : String := Id.run do
   let mut st := StA.init
   let mut i := 0
+  let mut diffs : Array String := #[]
   for o in evs do
-    -- A1: the done set handed over is exactly the finished, not yet reported jobs
+    if diffs.size ≥ 6 then break
     match o.ev, o.done with
     | .waitReturn s, some D =>
       if !sameSet D (doneSet c st s) then
-        return s!"reject {i} env:A1 wait-return of {s} observed={showNats D} model={showNats (doneSet c st s)}"
+        diffs := diffs.push s!"{i} env:A1 wait-return of {s} observed={showNats D} model={showNats (doneSet c st s)}"
+        break
     | _, _ => pure ()
-    match stepA c st o.ev with
-    | none => return s!"reject {i} env:guard {whyRejectA c st o.ev}"
+    let mut r := stepA c st o.ev
+    if r.isNone then
+      match o.ev with
+      | .tick d =>
+        diffs := diffs.push s!"{i} {tickWhyA c st} {whyRejectA c st o.ev}"
+        r := some { st with now := st.now + d }
+      | .grant j =>
+        -- the window limit alone refuses it?
+        let c' := { c with window := fun _ => 0 }
+        match stepA c' st o.ev with
+        | some st' =>
+          diffs := diffs.push s!"{i} slot-limit {whyRejectA c st (.grant j)}"
+          r := some st'
+        | none => pure ()
+      | _ => pure ()
+    match r with
+    | none =>
+      diffs := diffs.push s!"{i} env:guard {whyRejectA c st o.ev}"
+      break
     | some st' =>
+      let mut st2 := st'
       match o.started with
       | some S =>
         let S' := newlyQueued c st st'
         if !sameSet S S' then
-          return s!"reject {i} impl:start event={repr o.ev} observed={showNats S} model={showNats S'}"
+          diffs := diffs.push s!"{i} start event={repr o.ev} observed={showNats S} model={showNats S'}"
+          -- adopt the observed start set
+          st2 := { st' with ph := fun k => if k ∈ S ∧ st.ph k = .idle then .queued
+                                            else if k ∈ S' ∧ k ∉ S then .idle else st'.ph k }
       | none => pure ()
-      if st'.dbl then return s!"reject {i} impl:start a task was created twice"
-      st := st'
+      st := st2
     i := i + 1
-  return s!"ok {i}"
+  if diffs.isEmpty then return s!"ok {i}"
+  return s!"diff {i} | " ++ " | ".intercalate diffs.toList
 
 /-! ### layer B -/
 open AJ.Full
@@ -190,61 +222,99 @@ def whyRejectB (c : Cfg) (st : StB) (e : EvB) : String :=
      s!" job{j}: ph={repr (st.a.ph j)} creq={st.a.creq j} hph={repr (st.hph j)} hcreq={st.hcreq j} q={st.a.qcount (c.parent j)}"
    | _ => "")
 
+def tickWhyB (c : Cfg) (st : StB) : String :=
+  let g := (List.range c.n).filter fun j => 0 < j && st.a.ph j == .queued && !st.a.creq j && slotFree c st.a (c.parent j)
+  if !g.isEmpty then "eager" else "urgent"
+
 def replayB (c : Cfg) (evs : List ObsB) (diag : List (Nat × Bool × Bool)) : String := Id.run do
   let mut st := StB.init
   let mut i := 0
+  let mut diffs : Array String := #[]
+  let rng := List.range c.n
   for o in evs do
+    if diffs.size ≥ 6 then break
     let get := fun k => (getKV o.obs k).bind parseNats
     match o.ev, get "D" with
     | .waitReturn s, some D =>
       if !sameSet D (doneSet c st.a s) then
-        return s!"reject {i} env:A1 wait-return of {s} observed={showNats D} model={showNats (doneSet c st.a s)}"
+        diffs := diffs.push s!"{i} env:A1 wait-return of {s} observed={showNats D} model={showNats (doneSet c st.a s)}"
+        break
     | _, _ => pure ()
-    match stepB c st o.ev with
-    | none => return s!"reject {i} guard {whyRejectB c st o.ev}"
+    let mut nxt := stepB c st o.ev
+    if nxt.isNone then
+      match o.ev with
+      | .tick d =>
+        diffs := diffs.push s!"{i} {tickWhyB c st} {whyRejectB c st o.ev}"
+        nxt := some { st with a := { st.a with now := st.a.now + d } }
+      | .grant j =>
+        let c' := { c with window := fun _ => 0 }
+        match stepB c' st o.ev with
+        | some st' =>
+          diffs := diffs.push s!"{i} slot-limit {whyRejectB c st (.grant j)}"
+          nxt := some st'
+        | none => pure ()
+      | _ => pure ()
+    match nxt with
+    | none =>
+      diffs := diffs.push s!"{i} guard {whyRejectB c st o.ev}"
+      break
     | some st' =>
-      let rng := List.range c.n
+      let mut st2 := st'
       match get "S" with
       | some S =>
         let S' := rng.filter fun k => st.a.ph k == .idle && st'.a.ph k == .queued
-        if !sameSet S S' then return s!"reject {i} impl:start event={repr o.ev} observed={showNats S} model={showNats S'}"
+        if !sameSet S S' then
+          diffs := diffs.push s!"{i} start event={repr o.ev} observed={showNats S} model={showNats S'}"
+          st2 := { st2 with a := { st2.a with ph := fun k => if k ∈ S ∧ st.a.ph k = .idle then .queued
+                                                              else if k ∈ S' ∧ k ∉ S then .idle else st2.a.ph k } }
       | none => pure ()
       match get "K" with
       | some K =>
         let K' := rng.filter fun k => !st.a.creq k && st'.a.creq k
-        if !sameSet K K' then return s!"reject {i} impl:cancel event={repr o.ev} observed={showNats K} model={showNats K'}"
+        if !sameSet K K' then
+          diffs := diffs.push s!"{i} cancel event={repr o.ev} observed={showNats K} model={showNats K'}"
+          st2 := { st2 with a := { st2.a with creq := fun k => st.a.creq k || decide (k ∈ K) } }
       | none => pure ()
       match get "H" with
       | some H =>
         let H' := rng.filter fun k => st'.hcalls k != st.hcalls k
-        if !sameSet H H' then return s!"reject {i} impl:sd event={repr o.ev} observed={showNats H} model={showNats H'}"
+        if !sameSet H H' then
+          diffs := diffs.push s!"{i} sd event={repr o.ev} observed={showNats H} model={showNats H'}"
+          st2 := { st2 with hph := fun k => if k ∈ H then .hactive else if k ∈ H' then st.hph k else st2.hph k
+                            hcalls := fun k => if k ∈ H then st.hcalls k + 1 else st.hcalls k }
       | none => pure ()
       match get "HC" with
       | some H =>
         let H' := rng.filter fun k => !st.hcreq k && st'.hcreq k
-        if !sameSet H H' then return s!"reject {i} impl:sdto event={repr o.ev} observed={showNats H} model={showNats H'}"
+        if !sameSet H H' then
+          diffs := diffs.push s!"{i} sdto event={repr o.ev} observed={showNats H} model={showNats H'}"
+          st2 := { st2 with hcreq := fun k => st.hcreq k || decide (k ∈ H) }
       | none => pure ()
       match getKV o.obs "R" with
       | some r =>
-        let s := evSched o.ev
-        let s := match o.ev with | .grant j => j | _ => s
+        let s := match o.ev with | .grant j => j | e => evSched e
         if resToken (st'.a.ph s) != r then
-          return s!"reject {i} impl:verdict event={repr o.ev} observed={r} model={resToken (st'.a.ph s)}"
+          diffs := diffs.push s!"{i} verdict event={repr o.ev} observed={r} model={resToken (st'.a.ph s)}"
+          match parseRes r with
+          | some (some res) => st2 := { st2 with a := { st2.a with ph := setAt st2.a.ph s (.done res) } }
+          | some none => st2 := { st2 with a := { st2.a with ph := setAt st2.a.ph s .cancelled } }
+          | none => pure ()
       | none => pure ()
       match getKV o.obs "V" with
       | some v =>
         let s := evSched o.ev
         let m := match st'.sdValue s with | some true => "t" | some false => "f" | none => "n"
-        if m != v then return s!"reject {i} impl:sdvalue event={repr o.ev} observed={v} model={m}"
+        if m != v then diffs := diffs.push s!"{i} sdvalue event={repr o.ev} observed={v} model={m}"
       | none => pure ()
-      if st'.a.dbl then return s!"reject {i} impl:start a task was created twice"
-      st := st'
+      if st'.a.dbl then diffs := diffs.push s!"{i} start a task was created twice"
+      st := st2
     i := i + 1
   -- diagnosis after the run: failed_time_out() / failed_critical() of every scheduler that ended
   for (s, ft, fc) in diag do
     if st.pcB s == .over && (st.failT s != ft || st.failC s != fc) then
-      return s!"reject {i} impl:diag scheduler {s} observed=({ft},{fc}) model=({st.failT s},{st.failC s})"
-  return s!"ok {i}"
+      diffs := diffs.push s!"{i} diag scheduler {s} observed=({ft},{fc}) model=({st.failT s},{st.failC s})"
+  if diffs.isEmpty then return s!"ok {i}"
+  return s!"diff {i} | " ++ " | ".intercalate diffs.toList
 
 def parseDiag (s : String) : Option (List (Nat × Bool × Bool)) :=
   if s.isEmpty || s = "-" then some [] else
